@@ -18,6 +18,8 @@ enum Item {
     S(Vec<Item>),
     B(Vec<Item>),
     T(usize),
+    /// the shared loading resource number n is read here (under the ambient boundary)
+    U(usize),
 }
 
 fn parse_items(s: &str) -> Option<Vec<Item>> {
@@ -29,6 +31,7 @@ fn parse_items(s: &str) -> Option<Vec<Item>> {
         *i += 1;
         let r = match head.as_str() {
             "t" => { let n = t.get(*i)?.parse().ok()?; *i += 1; Item::T(n) }
+            "u" => { let n = t.get(*i)?.parse().ok()?; *i += 1; Item::U(n) }
             "s" | "b" | "L" => {
                 let mut v = vec![];
                 while t.get(*i)? != ")" { v.push(go(t, i)?); }
@@ -48,6 +51,7 @@ fn show_items(v: &[Item]) -> String {
         Item::S(c) => format!("(s{})", if c.is_empty() { String::new() } else { format!(" {}", show_items(c)) }),
         Item::B(c) => format!("(b{})", if c.is_empty() { String::new() } else { format!(" {}", show_items(c)) }),
         Item::T(n) => format!("(t {n})"),
+        Item::U(n) => format!("(u {n})"),
     }).collect::<Vec<_>>().join(" ")
 }
 
@@ -64,6 +68,10 @@ struct World {
     polls: Vec<(usize, usize)>,
     dead_scopes: Vec<bool>,
     polls_after_dispose: Vec<(usize, usize)>,
+    /// shared resources (created in the root scope before the items): the sender that lets the fetch finish
+    res: Vec<(sycamore::web::Resource<u32>, Option<oneshot::Sender<()>>)>,
+    /// per task-like item: the resource it stands for (reads of a shared resource are counted as tasks)
+    task_res: Vec<Option<usize>>,
 }
 
 fn build(w: &Rc<RefCell<World>>, items: &[Item], cur: usize, ctx: Option<usize>) {
@@ -92,7 +100,7 @@ fn build(w: &Rc<RefCell<World>>, items: &[Item], cur: usize, ctx: Option<usize>)
                 let mut rxs = vec![];
                 for _ in 0..*n { let (tx, rx) = oneshot::channel::<()>(); txs.push(tx); rxs.push(rx); }
                 txs.reverse();
-                { let mut ww = w.borrow_mut(); ww.task_tx.push(txs); ww.task_scope.push(cur); ww.task_boundary.push(ctx); ww.task_left.push(*n); ww.task_cancelled.push(false); }
+                { let mut ww = w.borrow_mut(); ww.task_tx.push(txs); ww.task_scope.push(cur); ww.task_boundary.push(ctx); ww.task_left.push(*n); ww.task_cancelled.push(false); ww.task_res.push(None); }
                 let w2 = w.clone();
                 let n = *n;
                 create_suspense_task(async move {
@@ -106,8 +114,19 @@ fn build(w: &Rc<RefCell<World>>, items: &[Item], cur: usize, ctx: Option<usize>)
                     }
                 });
             }
+            Item::U(n) => {
+                let r = w.borrow().res[*n].0;
+                // any access through `Deref` registers the ambient boundary (a guard while loading)
+                let _ = r.get_clone_untracked();
+                let mut ww = w.borrow_mut();
+                ww.task_tx.push(vec![]); ww.task_scope.push(0); ww.task_boundary.push(ctx); ww.task_left.push(1); ww.task_cancelled.push(false); ww.task_res.push(Some(*n));
+            }
         }
     }
+}
+
+fn max_res(items: &[Item]) -> usize {
+    items.iter().map(|i| match i { Item::S(c) | Item::B(c) => max_res(c), Item::U(n) => n + 1, Item::T(_) => 0 }).max().unwrap_or(0)
 }
 
 async fn drain() {
@@ -139,6 +158,12 @@ fn run_suspense(items: &[Item], events: &[String]) -> (String, Option<String>) {
         let root = create_root(|| {});
         root.run_in(|| {
             { let mut ww = w.borrow_mut(); ww.scopes.push(use_current_scope()); ww.scope_parent.push(None); ww.dead_scopes.push(false); }
+            for _ in 0..max_res(items) {
+                let (tx, rx) = oneshot::channel::<()>();
+                let mut rx = Some(rx);
+                let r = create_isomorphic_resource(move || { let rx = rx.take(); async move { if let Some(rx) = rx { let _ = rx.await; } 42u32 } });
+                w.borrow_mut().res.push((r, Some(tx)));
+            }
             build(&w, items, 0, None);
         });
         drain().await;
@@ -147,6 +172,14 @@ fn run_suspense(items: &[Item], events: &[String]) -> (String, Option<String>) {
             let from = w.borrow().polls.len();
             let (kind, n): (char, usize) = (e.chars().next().unwrap(), e[1..].parse().unwrap());
             let r = catch(|| root.run_in(|| match kind {
+                'r' => {
+                    let tx = { let mut ww = w.borrow_mut(); ww.res.get_mut(n).and_then(|r| r.1.take()) };
+                    if let Some(tx) = tx {
+                        let _ = tx.send(());
+                        let mut ww = w.borrow_mut();
+                        for t in 0..ww.task_res.len() { if ww.task_res[t] == Some(n) { ww.task_left[t] = 0; } }
+                    }
+                }
                 'c' => {
                     let tx = { let mut ww = w.borrow_mut(); if n < ww.task_tx.len() { ww.task_tx[n].pop() } else { None } };
                     if let Some(tx) = tx { let _ = tx.send(()); let mut ww = w.borrow_mut(); if !ww.task_cancelled[n] { ww.task_left[n] -= 1; } }
@@ -201,7 +234,7 @@ fn run_suspense(items: &[Item], events: &[String]) -> (String, Option<String>) {
     (out.join(" | "), verdict)
 }
 
-fn run_resource(dep0: u32, events: &[String]) -> (String, Option<String>) {
+fn run_resource(dep0: u32, fb: Option<u32>, events: &[String]) -> (String, Option<String>) {
     PANIC_LOG.with(|p| p.borrow_mut().clear());
     let rt = tokio::runtime::Builder::new_current_thread().build().unwrap();
     let local = tokio::task::LocalSet::new();
@@ -224,12 +257,23 @@ fn run_resource(dep0: u32, events: &[String]) -> (String, Option<String>) {
                     let k = { let mut t = txs.borrow_mut(); t.push(Some(tx)); t.len() as u32 };
                     async move { let _ = rx.await; (k, v) }
                 })));
+                if let Some(c) = fb {
+                    // a subscriber of the VALUE only (the handle is taken outside the effect, untracked) that
+                    // reacts to a delivery by writing the dependency, once
+                    let value: ReadSignal<Option<(u32, u32)>> = untrack(|| **res.as_ref().unwrap());
+                    create_effect(move || {
+                        if value.get_clone().is_some() && d.get_untracked() != c {
+                            d.set(c);
+                        }
+                    });
+                }
             }));
         });
         let (dep, res, scope) = (dep.unwrap(), res.unwrap(), scope.unwrap());
         let mut alive = true;
         // harness bookkeeping for the oracle
         let (mut started, mut latest_dep, mut completed, mut value): (u32, u32, bool, Option<(u32, u32)>) = (1, dep0, false, None);
+        let mut cur_dep = dep0;
         let show = |alive: bool| -> String {
             if !alive { return "dead".into(); }
             match catch(|| root.run_in(|| (res.get_clone_untracked(), res.is_loading()))) {
@@ -247,8 +291,16 @@ fn run_resource(dep0: u32, events: &[String]) -> (String, Option<String>) {
             }));
             if e == "x" { alive = false; }
             else if alive {
-                if let Some(v) = e.strip_prefix('w') { started += 1; latest_dep = v.parse().unwrap(); completed = false; }
-                else if let Some(k) = e.strip_prefix('f') { let k: u32 = k.parse().unwrap(); if k == started && !completed { completed = true; value = Some((k, latest_dep)); } }
+                if let Some(v) = e.strip_prefix('w') { started += 1; latest_dep = v.parse().unwrap(); cur_dep = latest_dep; completed = false; }
+                else if let Some(k) = e.strip_prefix('f') {
+                    let k: u32 = k.parse().unwrap();
+                    if k == started && !completed {
+                        completed = true;
+                        value = Some((k, latest_dep));
+                        // the subscriber writes the dependency from inside the delivery: a new fetch is outstanding
+                        if let Some(c) = fb { if cur_dep != c { cur_dep = c; started += 1; latest_dep = c; completed = false; } }
+                    }
+                }
             }
             if let Err(m) = r {
                 out.push("panic".into());
@@ -280,7 +332,13 @@ pub fn exec(line: &str) -> (String, Option<String>, bool) {
     if let Some(r) = rest.strip_prefix("resource ") {
         let (d, evs) = r.split_once(' ').unwrap();
         let evs: Vec<String> = if evs == "-" { vec![] } else { evs.split(',').map(|s| s.to_string()).collect() };
-        let (o, v) = run_resource(d.parse().unwrap(), &evs);
+        let (o, v) = run_resource(d.parse().unwrap(), None, &evs);
+        (o, v, evs.len() >= 2)
+    } else if let Some(r) = rest.strip_prefix("resourcefb ") {
+        let mut it = r.splitn(3, ' ');
+        let (d, c, evs) = (it.next().unwrap(), it.next().unwrap(), it.next().unwrap());
+        let evs: Vec<String> = if evs == "-" { vec![] } else { evs.split(',').map(|s| s.to_string()).collect() };
+        let (o, v) = run_resource(d.parse().unwrap(), Some(c.parse().unwrap()), &evs);
         (o, v, evs.len() >= 2)
     } else if let Some(r) = rest.strip_prefix("suspense ") {
         let (items, evs) = r.rsplit_once(' ').unwrap();
@@ -288,9 +346,68 @@ pub fn exec(line: &str) -> (String, Option<String>, bool) {
         let evs: Vec<String> = if evs == "-" { vec![] } else { evs.split(',').map(|s| s.to_string()).collect() };
         let (o, v) = run_suspense(&items, &evs);
         (o, v, evs.len() >= 2)
+    } else if rest == "special drop-under-borrow" {
+        let (o, v) = run_drop_under_borrow();
+        (o, v, true)
     } else {
         ("bad-op".into(), None, false)
     }
+}
+
+/// D15: values and context values of a disposed node are dropped while nothing is borrowed, so that their
+/// destructors may use the reactive system (a resource's suspense guards release their counters)
+fn run_drop_under_borrow() -> (String, Option<String>) {
+    struct Noisy(Signal<i32>);
+    impl Drop for Noisy {
+        fn drop(&mut self) {
+            if self.0.is_alive() { self.0.set(self.0.get_untracked() + 1); }
+        }
+    }
+    let mut out = vec![];
+    let mut verdict = None;
+    // (a) a signal value and a context value whose destructors write a signal
+    let r = catch(|| {
+        let mut seen = (0, 0);
+        let root = create_root(|| {
+            let counter = create_signal(0);
+            let child = create_child_scope(|| { let _holder = create_signal(Noisy(counter)); });
+            child.dispose();
+            seen.0 = counter.get_untracked();
+            let child = create_child_scope(|| { provide_context(Rc::new(Noisy(counter))); });
+            child.dispose();
+            seen.1 = counter.get_untracked();
+        });
+        root.dispose();
+        seen
+    });
+    match r {
+        Ok(seen) => { out.push(format!("drops={},{}", seen.0, seen.1)); if seen != (1, 2) { verdict = Some(format!("[async-panic] destructors of disposed values ran {seen:?} times, expected (1, 2)")); } }
+        Err(m) => { out.push("panic".into()); verdict = Some(format!("[async-panic] disposing a scope whose signal/context value has a destructor that uses signals panicked: {m}")); }
+    }
+    // (b) a loading resource read under a suspense boundary, disposed with its scope
+    let rt = tokio::runtime::Builder::new_current_thread().build().unwrap();
+    let local = tokio::task::LocalSet::new();
+    let r = catch(|| local.block_on(&rt, async {
+        let mut sc = None;
+        let root = create_root(|| {
+            let mut child = None;
+            let (_, scope) = create_suspense_scope(|| {
+                child = Some(create_child_scope(|| {
+                    let r = create_isomorphic_resource(|| async { futures::future::pending::<()>().await; 1u32 });
+                    let _ = r.get_clone_untracked();
+                }));
+            });
+            child.unwrap().dispose();
+            sc = Some(scope);
+        });
+        drain().await;
+        root.run_in(|| sc.unwrap().is_loading().get_untracked())
+    }));
+    match r {
+        Ok(l) => { out.push(format!("loading={}", l as u8)); if l { verdict.get_or_insert("[suspense-loading] the boundary still reports loading after the scope of its only (loading) resource was disposed".into()); } }
+        Err(m) => { out.push("panic".into()); verdict.get_or_insert(format!("[async-panic] disposing the scope of a loading resource read under a suspense boundary panicked: {m}")); }
+    }
+    (out.join(" | "), verdict)
 }
 
 fn permutations(v: &[String]) -> Vec<Vec<String>> {
@@ -307,11 +424,19 @@ fn permutations(v: &[String]) -> Vec<Vec<String>> {
 fn count(items: &[Item]) -> (usize, usize, Vec<usize>) {
     // (scopes created, boundaries, awaits per task) in creation order
     fn go(items: &[Item], s: &mut usize, b: &mut usize, t: &mut Vec<usize>) {
-        for i in items { match i { Item::S(c) => { *s += 1; go(c, s, b, t) } Item::B(c) => { *s += 1; *b += 1; go(c, s, b, t) } Item::T(n) => t.push(*n) } }
+        for i in items { match i { Item::S(c) => { *s += 1; go(c, s, b, t) } Item::B(c) => { *s += 1; *b += 1; go(c, s, b, t) } Item::T(n) => t.push(*n), Item::U(_) => t.push(1) } }
     }
     let (mut s, mut b, mut t) = (0, 0, vec![]);
     go(items, &mut s, &mut b, &mut t);
     (s, b, t)
+}
+
+/// is the t-th task-like item (creation order) a real task (not a resource read)?
+fn items_task_is_real(items: &[Item], t: usize) -> bool {
+    fn go(items: &[Item], v: &mut Vec<bool>) { for i in items { match i { Item::S(c) | Item::B(c) => go(c, v), Item::T(_) => v.push(true), Item::U(_) => v.push(false) } } }
+    let mut v = vec![];
+    go(items, &mut v);
+    v.get(t).copied().unwrap_or(false)
 }
 
 fn gen_items(rng: &mut Rng, depth: usize, budget: &mut usize) -> Vec<Item> {
@@ -376,6 +501,53 @@ pub fn generate(args: &Args) -> Vec<String> {
         for i in (1..evs.len()).rev() { let j = rng.below(i + 1); evs.swap(i, j); }
         if scopes > 0 { for _ in 0..rng.below(3) { let pos = rng.below(evs.len() + 1); evs.insert(pos, format!("d{}", 1 + rng.below(scopes))); } }
         l.push(format!("async suspense (L {}) {}", show_items(&items), if evs.is_empty() { "-".into() } else { evs.join(",") }));
+    }
+    // C13: ONE loading resource read under several boundaries (each read holds its own guard) x every order
+    // of the resource's delivery and the tasks' completions; no disposals (the guards live in the resource)
+    for sh in ["(L (b (u 0)) (b (u 0)))", "(L (b (u 0) (t 1)) (b (u 0)) (b (t 1)))", "(L (u 0) (b (u 0) (b (u 0))))", "(L (b (u 0) (u 1)) (b (u 1)) (b (b (u 0))))",
+               "(L (b (s (u 0))) (s (b (u 0) (t 2))))"] {
+        let items = parse_items(sh).unwrap();
+        let (_, _, tasks) = count(&items);
+        let mut evs: Vec<String> = vec![];
+        for (t, n) in tasks.iter().enumerate() { for _ in 0..*n { evs.push(format!("c{t}")); } }
+        for r in 0..max_res(&items) { evs.push(format!("r{r}")); }
+        let evs: Vec<String> = evs.into_iter().filter(|e| !e.starts_with('c') || items_task_is_real(&items, e[1..].parse().unwrap())).collect();
+        let mut perms = permutations(&evs);
+        perms.sort(); perms.dedup();
+        for p in perms { l.push(format!("async suspense {sh} {}", p.join(","))); }
+    }
+    for _ in 0..(if thorough { 20_000 } else { 800 }) {
+        let mut budget = 7;
+        let mut items = gen_items(&mut rng, 3, &mut budget);
+        // turn some tasks into reads of one of two shared resources
+        fn uses(items: &mut Vec<Item>, rng: &mut Rng) { for i in items.iter_mut() { match i { Item::T(_) => if rng.chance(1, 2) { *i = Item::U(rng.below(2)); }, Item::S(c) | Item::B(c) => uses(c, rng), _ => {} } } }
+        uses(&mut items, &mut rng);
+        let (_, _, tasks) = count(&items);
+        let mut evs: Vec<String> = vec![];
+        for (t, k) in tasks.iter().enumerate() { if items_task_is_real(&items, t) { for _ in 0..*k { evs.push(format!("c{t}")); } } }
+        for r in 0..max_res(&items) { evs.push(format!("r{r}")); }
+        for i in (1..evs.len()).rev() { let j = rng.below(i + 1); evs.swap(i, j); }
+        l.push(format!("async suspense (L {}) {}", show_items(&items), if evs.is_empty() { "-".into() } else { evs.join(",") }));
+    }
+    // C15 with a subscriber that writes the dependency from inside a delivery (re-entrant refetch)
+    {
+        let alpha = ["w", "f1", "f2", "f3", "f4", "f5"];
+        let maxlen = if thorough { 6 } else { 5 };
+        let mut frontier: Vec<Vec<&str>> = vec![vec![]];
+        let mut seqs: Vec<Vec<&str>> = vec![];
+        for _ in 0..maxlen {
+            let mut next = vec![];
+            for s in &frontier { for a in alpha { let mut t = s.clone(); t.push(a); next.push(t); } }
+            seqs.extend(next.iter().cloned());
+            frontier = next;
+        }
+        for s in seqs.iter() {
+            if !s.iter().any(|e| e.starts_with('f')) { continue; }
+            let mut wv = 10;
+            let evs: Vec<String> = s.iter().map(|e| if *e == "w" { wv += 1; format!("w{wv}") } else { e.to_string() }).collect();
+            l.push(format!("async resourcefb 7 1 {}", evs.join(",")));
+        }
+        l.push("async resourcefb 1 1 f1,w11,f2,f3".into());
     }
     // C15: every event sequence over {w, f1..f4} up to length 5 (quick) / 6 (thorough), plus disposal variants
     let alpha = ["w", "f1", "f2", "f3", "f4"];
